@@ -1,11 +1,184 @@
 (* C11, pixel codec: go-cptv's snake / delta / bit-pack compression is lossless for all
    16-bit frames. *)
 From Coq Require Import List ZArith Bool Arith Lia.
-From TR Require Import model.Codec.
+From TR Require Import model.Codec proofs.CodecBits.
 Import ListNotations.
 Open Scope Z_scope.
 
+#[local] Arguments Z.pow : simpl never.
+#[local] Arguments Z.mul : simpl never.
+#[local] Arguments Z.add : simpl never.
+#[local] Arguments Z.sub : simpl never.
+#[local] Arguments Z.div : simpl never.
+#[local] Arguments Z.modulo : simpl never.
+
 Definition pixels_ok (f : list Z) : Prop := Forall (fun v => 0 <= v <= 65535) f.
+
+(* ---------- snake order ---------- *)
+Lemma nth_map_seq : forall (f : nat -> Z) n i d, (i < n)%nat -> nth i (map f (seq 0 n)) d = f i.
+Proof.
+  intros f n i d Hi. rewrite (nth_indep _ d (f 0%nat)) by (rewrite map_length, seq_length; lia).
+  rewrite map_nth. rewrite seq_nth by lia. reflexivity.
+Qed.
+
+Lemma snake_pos_parts : forall cols y x, 1 <= cols -> 0 <= x < cols ->
+  (y * cols + x) / cols = y /\ (y * cols + x) mod cols = x.
+Proof.
+  intros cols y x Hc Hx. split.
+  - rewrite Z.div_add_l by lia. rewrite Z.div_small by lia. lia.
+  - rewrite Z.add_comm, Z.mod_add by lia. apply Z.mod_small; lia.
+Qed.
+
+Lemma snake_pos_invol : forall cols i, 1 <= cols -> snake_pos cols (snake_pos cols i) = i.
+Proof.
+  intros cols i Hc. unfold snake_pos.
+  pose proof (Z.div_mod i cols ltac:(lia)) as Ei. pose proof (Z.mod_pos_bound i cols ltac:(lia)) as Hx.
+  set (y := i / cols) in *. set (x := i mod cols) in *.
+  destruct (Z.odd y) eqn:Eo.
+  - destruct (snake_pos_parts cols y (cols - x - 1) Hc ltac:(lia)) as [-> ->]. rewrite Eo. lia.
+  - destruct (snake_pos_parts cols y x Hc ltac:(lia)) as [-> ->]. rewrite Eo. lia.
+Qed.
+
+Lemma snake_pos_bound : forall rows cols i, 1 <= cols -> 0 <= i < rows * cols ->
+  0 <= snake_pos cols i < rows * cols.
+Proof.
+  intros rows cols i Hc Hi. unfold snake_pos.
+  pose proof (Z.div_mod i cols ltac:(lia)) as Ei. pose proof (Z.mod_pos_bound i cols ltac:(lia)) as Hx.
+  assert (Hy : 0 <= i / cols < rows).
+  { split; [apply Z.div_pos; lia | apply Z.div_lt_upper_bound; lia]. }
+  set (y := i / cols) in *. set (x := i mod cols) in *.
+  destruct (Z.odd y); nia.
+Qed.
+
+Lemma snake_length : forall cols f, length (snake cols f) = length f.
+Proof. intros. unfold snake. rewrite map_length, seq_length. reflexivity. Qed.
+
+Lemma unsnake_is_snake : forall cols s, unsnake cols s = snake cols s.
+Proof. reflexivity. Qed.
+
+Lemma zth_snake : forall cols f i, 0 <= i < Z.of_nat (length f) ->
+  zth (snake cols f) i = zth f (snake_pos cols i).
+Proof.
+  intros cols f i Hi. unfold zth at 1. unfold snake. rewrite nth_map_seq by lia.
+  rewrite Z2Nat.id by lia. reflexivity.
+Qed.
+
+Lemma unsnake_snake : forall rows cols l, 1 <= cols -> length l = Z.to_nat (rows * cols) ->
+  unsnake cols (snake cols l) = l.
+Proof.
+  intros rows cols l Hc Hl. rewrite unsnake_is_snake.
+  apply nth_ext with (d := 0) (d' := 0); [rewrite !snake_length; reflexivity |].
+  intros i Hi. rewrite !snake_length in Hi.
+  unfold snake at 1. rewrite nth_map_seq by (rewrite snake_length; exact Hi).
+  assert (Hi' : 0 <= Z.of_nat i < rows * cols) by lia.
+  pose proof (snake_pos_bound rows cols _ Hc Hi') as Hb.
+  rewrite zth_snake by lia. rewrite snake_pos_invol by exact Hc.
+  unfold zth. rewrite Nat2Z.id. reflexivity.
+Qed.
+
+Lemma snake_Forall : forall (P : Z -> Prop) cols f, P 0 -> Forall P f -> Forall P (snake cols f).
+Proof.
+  intros P cols f H0 Hf. unfold snake. apply Forall_forall. intros x Hx.
+  apply in_map_iff in Hx. destruct Hx as (i & <- & _). unfold zth.
+  destruct (nth_in_or_default (Z.to_nat (snake_pos cols (Z.of_nat i))) f 0) as [Hin | ->].
+  - exact (proj1 (Forall_forall P f) Hf _ Hin).
+  - exact H0.
+Qed.
+
+(* ---------- ranges ---------- *)
+Lemma delta_range : forall cur prev, pixels_ok cur -> pixels_ok prev ->
+  Forall (fun v => -65535 <= v <= 65535) (map (fun p => fst p - snd p) (combine cur prev)).
+Proof.
+  intros cur prev Hc Hp. apply Forall_forall. intros v Hv. apply in_map_iff in Hv.
+  destruct Hv as ([a b] & <- & Hin). cbn [fst snd].
+  pose proof (proj1 (Forall_forall _ _) Hc a (in_combine_l _ _ _ _ Hin)) as Ha.
+  pose proof (proj1 (Forall_forall _ _) Hp b (in_combine_r _ _ _ _ Hin)) as Hb.
+  cbv beta in Ha, Hb. lia.
+Qed.
+
+Lemma adj_deltas_cons2 : forall a b l, adj_deltas (a :: b :: l) = (b - a) :: adj_deltas (b :: l).
+Proof. reflexivity. Qed.
+
+Lemma adj_deltas_range : forall B l, Forall (fun v => - B <= v <= B) l ->
+  Forall (fun d => - (2 * B) <= d <= 2 * B) (adj_deltas l).
+Proof.
+  intros B. induction l as [| a l IH]; intros Hl; [constructor |].
+  destruct l as [| b l']; [constructor |].
+  rewrite adj_deltas_cons2. inversion Hl as [| ? ? Ha Hl']; subst.
+  constructor; [| apply IH; exact Hl'].
+  inversion Hl' as [| ? ? Hb _]; subst. lia.
+Qed.
+
+Lemma adj_deltas_length : forall a l, length (adj_deltas (a :: l)) = length l.
+Proof.
+  intros a l; revert a. induction l as [| b l IH]; intro a; [reflexivity |].
+  rewrite adj_deltas_cons2. cbn [length]. rewrite IH. reflexivity.
+Qed.
+
+Lemma prefix_sums_adj : forall l a, prefix_sums a (adj_deltas (a :: l)) = l.
+Proof.
+  induction l as [| b l IH]; intro a; [reflexivity |].
+  rewrite adj_deltas_cons2. cbn [prefix_sums]. replace (a + (b - a)) with b by lia.
+  rewrite IH. reflexivity.
+Qed.
+
+Definition fmax (m d : Z) : Z := Z.max m (Z.abs d).
+
+Lemma fold_max_acc : forall l m, m <= fold_left fmax l m.
+Proof.
+  induction l as [| d l IH]; intro m; cbn [fold_left]; [lia |].
+  specialize (IH (fmax m d)). unfold fmax in *. lia.
+Qed.
+
+Lemma fold_max_ge : forall l m d, In d l -> Z.abs d <= fold_left fmax l m.
+Proof.
+  induction l as [| x l IH]; intros m d Hin; [destruct Hin |]. cbn [fold_left].
+  destruct Hin as [-> | Hin].
+  - pose proof (fold_max_acc l (fmax m d)). unfold fmax in *. lia.
+  - apply IH; exact Hin.
+Qed.
+
+Lemma fold_max_le : forall B l m, m <= B -> Forall (fun d => - B <= d <= B) l -> fold_left fmax l m <= B.
+Proof.
+  intros B. induction l as [| x l IH]; intros m Hm Hl; cbn [fold_left]; [lia |].
+  inversion Hl as [| ? ? Hx Hl']; subst. apply IH; [unfold fmax; lia | exact Hl'].
+Qed.
+
+Lemma max_abs_fold : forall l, max_abs l = fold_left fmax l 0.
+Proof. reflexivity. Qed.
+
+(* the width the compressor picks fits every adjacent difference, and is at most 18 *)
+Lemma width_ok : forall ad, Forall (fun d => - 131070 <= d <= 131070) ad ->
+  1 <= num_bits (max_abs ad) + 1 <= 18 /\ Forall (inr (num_bits (max_abs ad) + 1)) ad.
+Proof.
+  intros ad Had. rewrite max_abs_fold.
+  pose proof (fold_max_acc ad 0) as Hm0.
+  pose proof (fold_max_le 131070 ad 0 ltac:(lia) Had) as HmB.
+  assert (Hall : forall d, In d ad -> Z.abs d <= fold_left fmax ad 0) by (intros; apply fold_max_ge; assumption).
+  set (m := fold_left fmax ad 0) in *. unfold num_bits.
+  destruct (Z.leb_spec m 0) as [Hz | Hpos].
+  - split; [lia |]. apply Forall_forall. intros d Hd. specialize (Hall d Hd).
+    unfold inr. change (2 ^ (0 + 1 - 1)) with 1. lia.
+  - pose proof (Z.log2_nonneg m) as Hl0.
+    assert (Hl : Z.log2 m < 17) by (apply Z.log2_lt_pow2; [lia | change (2 ^ 17) with 131072; lia]).
+    split; [lia |]. apply Forall_forall. intros d Hd. specialize (Hall d Hd).
+    pose proof (Z.log2_spec m Hpos) as [_ Hs]. unfold inr.
+    replace (Z.log2 m + 1 + 1 - 1) with (Z.succ (Z.log2 m)) by lia. lia.
+Qed.
+
+(* ---------- adding the delta back ---------- *)
+Lemma add_back : forall cur prev, length prev = length cur -> pixels_ok prev -> pixels_ok cur ->
+  map (fun p => (fst p + snd p) mod 65536)
+      (combine prev (map (fun p => fst p - snd p) (combine cur prev))) = cur.
+Proof.
+  induction cur as [| c cur IH]; intros [| p prev] Hl Hp Hc; try discriminate; [reflexivity |].
+  cbn [combine map fst snd]. inversion Hp as [| ? ? Hp0 Hp']; inversion Hc as [| ? ? Hc0 Hc']; subst.
+  f_equal.
+  - replace (p + (c - p)) with c by lia. apply Z.mod_small; lia.
+  - apply IH; [cbn [length] in Hl; lia | exact Hp' | exact Hc'].
+Qed.
+
+(* ---------- the theorems ---------- *)
 
 (* one frame: for every resolution rows x cols (at least one pixel), every previous frame and
    every current frame of 16-bit values, decompressing what the compressor produced (with the
@@ -16,7 +189,35 @@ Theorem codec_roundtrip : forall rows cols prev cur,
     pixels_ok prev -> pixels_ok cur ->
     let '(w, data) := compress cols prev cur in
     decompress cols (Z.to_nat (rows * cols)) w data prev = Some cur /\ 1 <= w <= 19.
-Admitted.
+Proof.
+  intros rows cols prev cur Hrows Hcols Hlp Hlc Hp Hc.
+  destruct (compress cols prev cur) as [w data] eqn:E. unfold compress in E. cbv zeta in E.
+  set (delta := map (fun p => fst p - snd p) (combine cur prev)) in *.
+  assert (Hld : length delta = Z.to_nat (rows * cols)).
+  { unfold delta. rewrite map_length, combine_length. lia. }
+  assert (Hrd : Forall (fun v => - 65535 <= v <= 65535) delta) by (apply delta_range; assumption).
+  assert (Hrf : Forall (fun v => - 65535 <= v <= 65535) (snake cols delta)) by (apply snake_Forall; [lia | exact Hrd]).
+  assert (Hlf : length (snake cols delta) = Z.to_nat (rows * cols)) by (rewrite snake_length; exact Hld).
+  assert (Hun : unsnake cols (snake cols delta) = delta) by (apply (unsnake_snake rows); assumption).
+  destruct (snake cols delta) as [| fd0 ftl] eqn:Efd.
+  { cbn [length] in Hlf. nia. }
+  cbn [hd] in E.
+  set (ad := adj_deltas (fd0 :: ftl)) in *.
+  assert (Hla : length ad = (Z.to_nat (rows * cols) - 1)%nat).
+  { unfold ad. rewrite adj_deltas_length. cbn [length] in Hlf. lia. }
+  assert (Hra : Forall (fun d => - 131070 <= d <= 131070) ad).
+  { unfold ad. apply (adj_deltas_range 65535). exact Hrf. }
+  destruct (width_ok ad Hra) as [Hw Hin].
+  pose proof (f_equal fst E) as Ew. pose proof (f_equal snd E) as Ed. cbn [fst snd] in Ew, Ed.
+  clear E. rewrite Ew in *. subst data.
+  split; [| lia].
+  unfold decompress. rewrite skipn4_le32, <- Hla.
+  rewrite unpack_pack_bits by (try assumption; lia).
+  rewrite from_le32_le32.
+  2:{ inversion Hrf as [| ? ? H0 _]; subst. change (2 ^ 31) with 2147483648. lia. }
+  cbv zeta. unfold ad. rewrite prefix_sums_adj, Hun. f_equal.
+  apply add_back; [lia | assumption | assumption].
+Qed.
 
 (* a whole recording: compressor and decompressor each thread their previous frame *)
 Theorem codec_roundtrip_seq : forall rows cols frames prev,
@@ -24,7 +225,14 @@ Theorem codec_roundtrip_seq : forall rows cols frames prev,
     length prev = Z.to_nat (rows * cols) -> pixels_ok prev ->
     Forall (fun f => length f = Z.to_nat (rows * cols) /\ pixels_ok f) frames ->
     roundtrip_seq cols (Z.to_nat (rows * cols)) prev frames = Some frames.
-Admitted.
+Proof.
+  intros rows cols frames. induction frames as [| f r IH]; intros prev Hrows Hcols Hlp Hp Hfs.
+  - reflexivity.
+  - inversion Hfs as [| ? ? [Hlf Hf] Hr]; subst. cbn [roundtrip_seq].
+    pose proof (codec_roundtrip rows cols prev f Hrows Hcols Hlp Hlf Hp Hf) as H.
+    destruct (compress cols prev f) as [w data]. destruct H as [Hd _]. rewrite Hd.
+    rewrite (IH f Hrows Hcols Hlf Hf Hr). reflexivity.
+Qed.
 
 (* non-vacuity: 2 x 3 frames with extreme values, two frames in sequence *)
 Example codec_ex :
